@@ -63,7 +63,11 @@ def run_raw(ctx: Ctx, hid, config: str, case: dict) -> dict:
         f.write(case.get("ini", "[mypy]\n"))
     args = B.CONFIGS[config] + ["--config-file", "mypy.ini"]
     steps = []
+    targets = case["targets"]
     for k, edits in enumerate(case["steps"]):
+        edits = dict(edits)
+        if "@targets" in edits:         # the files named on the command line from this step on
+            targets = edits.pop("@targets")
         for rel, text in edits.items():
             p = os.path.join(root, rel)
             if text is None:
@@ -80,8 +84,8 @@ def run_raw(ctx: Ctx, hid, config: str, case: dict) -> dict:
                 fp = os.path.join(dp, fn)
                 st = os.stat(fp)
                 files[os.path.relpath(fp, root)] = {"text": open(fp).read(), "mtime": int(st.st_mtime), "size": st.st_size}
-        warm = B.run_mypy(root, os.path.join(base, "cache"), args, targets=case["targets"], scratch=base)
-        cold = B.run_mypy(root, os.path.join(base, f"cold{k}"), args, targets=case["targets"], scratch=base)
+        warm = B.run_mypy(root, os.path.join(base, "cache"), args, targets=targets, scratch=base)
+        cold = B.run_mypy(root, os.path.join(base, f"cold{k}"), args, targets=targets, scratch=base)
         shutil.rmtree(os.path.join(base, f"cold{k}"), ignore_errors=True)
         steps.append({"edits": [{"kind": "corpus:" + case["name"]}], "files": files, "warm": warm, "cold": cold})
     shutil.rmtree(base, ignore_errors=True)
